@@ -44,6 +44,10 @@ def main():
     base = tempfile.mkdtemp(prefix='simdassh_seed_')
     wt = os.path.join(base, 'tree')
     meta = {'id': sid, 'property': pid, 'ran': []}
+    try:  # keep the hand-written history of earlier evaluations
+        meta['history'] = json.load(open(os.path.join(dst, 'meta.json'))).get('history', [])
+    except (OSError, ValueError):
+        pass
     try:
         run(['git', '-C', '/repo', 'worktree', 'add', '-q', '--detach', wt, 'HEAD'], check=True)
         meta['repo_head'] = run(['git', '-C', '/repo', 'rev-parse', '--short', 'HEAD']).stdout.strip()
